@@ -16,5 +16,12 @@ claim("C07", "Lean 4 theorems about definitions regenerated from the source (py2
       "every size and its constructor check accepts exactly the permutations.",
       _TB + " Model/Ctors.lean and Model/Perm.lean are hand models tied by correspondence. Planar/TriangularAffine/spline documented-function theorems pending; they are exercised by the NumPy-reference oracle only.", "DESIGN.md §5 C07")
 
-for _p in ["C02","C03","C04","C05","C06","C08","C09","C10","C11","C12","C13","C14","C15","C16","C17","C18"]:
+claim("C03", "Lean 4 theorems about definitions regenerated from the source (py2lean) + Float correspondence",
+      "The generated AbstractTransformed methods satisfy the change-of-variables identities for every base/bijection record: log_prob = base log-density at the "
+      "inverse image + inverse log-det; sample = bijection of the base sample; the log-prob returned with a sample equals log_prob there whenever the bijection is "
+      "lawful with antisymmetric log-dets (any nesting depth); merge_transforms and merge_chains preserve all methods for any nesting depth. Nested real "
+      "Transformed objects, their merged forms and the premade flows' orientation are compared with the model on every run.",
+      _TB + " Base distributions are abstract records; PRNG is JAX's. BNAF/triangular-spline factories cannot be constructed in this environment.", "DESIGN.md §5 C03")
+
+for _p in ["C02","C04","C05","C06","C08","C09","C10","C11","C12","C13","C14","C15","C16","C17","C18"]:
     NOT_YET[_p] = "not yet built in this round: theorems and correspondence under construction (see DESIGN.md §8); never claimed on the strength of the harness alone"
